@@ -374,6 +374,7 @@ type Partial struct {
 	Min          int                      `json:"min"`
 	HasHook      bool                     `json:"has_hook"`
 	ContractErrs int                      `json:"contract_errs"`
+	Bounded      []string                 `json:"bounded"`
 }
 
 // runShard verifies the functions of one shard (index i of n, by position in the contract order) and classifies
@@ -383,6 +384,7 @@ func runShard(prop, repo, tier string, si, sn int) *Partial {
 	db := L.Contracts
 	var results []*FuncResult
 	var all []*Oblig
+	var bounded []string
 	idx := 0
 	for _, fc := range db.Order {
 		if !hasProp(fc.Props, prop) || fc.Trusted || (fc.ThoroughOnly && tier != "thorough") {
@@ -397,6 +399,9 @@ func runShard(prop, repo, tier string, si, sn int) *Partial {
 		r := verifyFunc(L, fc.Fn, fc)
 		r.ExecSecs = time.Since(t0).Seconds()
 		results = append(results, r)
+		if fc.Bounded != "" {
+			bounded = append(bounded, funcKey(fc.Fn)+": "+fc.Bounded)
+		}
 		for _, o := range r.Obligs {
 			if o.Props != nil && !hasProp(o.Props, prop) {
 				continue
@@ -407,7 +412,7 @@ func runShard(prop, repo, tier string, si, sn int) *Partial {
 			all = append(all, o)
 		}
 	}
-	P := &Partial{ByBackend: map[string]int{}}
+	P := &Partial{ByBackend: map[string]int{}, Bounded: bounded}
 	if hook, ok := propHooks[prop]; ok {
 		P.HasHook = true
 		if si == 0 {
@@ -645,6 +650,7 @@ func cmdCheck(args []string) int {
 		A.Known = append(A.Known, P.Known...)
 		A.Instances += P.Instances
 		A.Slow = append(A.Slow, P.Slow...)
+		A.Bounded = append(A.Bounded, P.Bounded...)
 		A.HasDecl = A.HasDecl || P.HasDecl
 		A.HasHook = A.HasHook || P.HasHook
 		if P.Min > A.Min {
@@ -689,7 +695,7 @@ func cmdCheck(args []string) int {
 			"checker_cmd":              "bin/govc check " + prop + " --tier " + *tier,
 			"trusted_base":             trustedBase(A.Assumed),
 			"functions_under_contract": A.Funcs, "by_backend": A.ByBackend, "solver_s": round3(A.SolverS), "max_query_s": round3(A.MaxQ),
-			"covers_sat": A.Covers, "inlined": A.Inlined, "out_of_subset": A.OOS, "assumed_contracts": A.Assumed, "bounded": []string{},
+			"covers_sat": A.Covers, "inlined": A.Inlined, "out_of_subset": A.OOS, "assumed_contracts": A.Assumed, "bounded": boundedList(A.Bounded),
 			"samples": A.Samples, "path_instances": A.Instances, "worker_processes": len(parts),
 			"integers": "bit-vectors of the Go width (int/uint = 64 bit); no integer is treated as mathematical",
 		},
@@ -985,4 +991,12 @@ func cmdImpls(args []string) int {
 		fmt.Printf("%-45s %-5s %-3s %s:%d\n", k, has("size"), has("wf"), shortFile(pos.Filename), pos.Line)
 	}
 	return 0
+}
+
+func boundedList(b []string) []string {
+	sort.Strings(b)
+	if b == nil {
+		return []string{}
+	}
+	return b
 }
